@@ -157,6 +157,10 @@ func NewHTTPRequestFromStdReq(req *http.Request, params ...Param) (ret *HTTPRequ
 	switch mediaType {
 	case "application/json":
 		{
+			if req.Body == nil {
+				// a request created without a body: nothing to map
+				return ret, nil
+			}
 			body, err := ioutil.ReadAll(req.Body)
 			if err != nil {
 				return nil, err
@@ -217,6 +221,10 @@ func (self HTTPRequest) GetQuery(key string) string {
 func (self HTTPRequest) GetBody() []byte {
 	if self.rawBody != nil {
 		return self.rawBody
+	}
+	if self.Request.Body == nil {
+		// a request created without a body (e.g. http.NewRequest(method, url, nil))
+		return nil
 	}
 	buf, err := ioutil.ReadAll(self.Request.Body)
 	if err != nil {
